@@ -51,6 +51,10 @@ type Task struct {
 	ready   func() bool
 	quantum int
 	prio    int
+	// lockDepth counts the mutexes this task holds in auto-instrumented files (auto.locked/auto.unlocked
+	// marks): while it is positive the task is preempted only at lock acquisitions, never at plain yields
+	lockDepth   int
+	pendingDrop bool
 	fn      func(*Task)
 	which   string
 	started bool
@@ -404,25 +408,43 @@ func (s *Sim) preempt(t *Task, point string) {
 //
 //go:norace
 func (s *Sim) hookPoint(t *Task, point string, window bool) bool {
+	return s.hookPointL(t, point, window, false)
+}
+
+// hookPointL: atLock says that the point is a lock acquisition (a preemption point even while the task
+// holds other locks: that is where lock-order deadlocks are made).
+//
+//go:norace
+func (s *Sim) hookPointL(t *Task, point string, window, atLock bool) bool {
 	s.Points.Add(point, 1)
+	held := t.lockDepth > 0 && !atLock
 	if s.cfg.PCTDepth > 0 {
 		s.hookCount++
 		for _, cp := range s.pctPoints {
 			if cp == s.hookCount {
-				t.prio = s.pctLow
-				s.pctLow--
-				s.preempt(t, point)
-				return true
+				t.pendingDrop = true
 			}
+		}
+		if t.pendingDrop && !held {
+			t.pendingDrop = false
+			t.prio = s.pctLow
+			s.pctLow--
+			s.preempt(t, point)
+			return true
 		}
 		return false
 	}
 	if t.quantum > 0 {
-		t.quantum--
+		if t.quantum > 1 || !held {
+			t.quantum--
+		}
 		if t.quantum == 0 {
 			s.preempt(t, point)
 			return true
 		}
+	}
+	if held {
+		return false
 	}
 	if window && s.cfg.WindowBias > 0 && s.tape.Chance(LaneSched, 1, s.cfg.WindowBias) {
 		s.preempt(t, point)
@@ -468,6 +490,15 @@ func (s *Sim) Yield(point string, obj interface{}) {
 		return
 	}
 	s.checkPoison()
+	switch point {
+	case "auto.locked":
+		t.lockDepth++
+		return
+	case "auto.unlocked":
+		if t.lockDepth > 0 {
+			t.lockDepth--
+		}
+	}
 	for _, rp := range s.RecPoints {
 		if rp == point {
 			s.Rec("point", point, "", 0)
@@ -493,7 +524,7 @@ func (s *Sim) Await(point string, obj interface{}, ready func() bool) {
 	}
 	s.checkPoison()
 	if probe(ready) {
-		if !s.hookPoint(t, point, true) {
+		if !s.hookPointL(t, point, true, true) {
 			return
 		}
 		if probe(ready) {
@@ -584,6 +615,10 @@ func (s *Sim) BeforeBlock(ctx context.Context, point string, obj interface{}) in
 	t.point = point
 	t.obj = obj
 	s.mu.Unlock()
+	// from here on this goroutine does not hold the token: should the code between this hook and the
+	// blocking operation call further hooks (a change may have put something there), they find no token
+	// holder and do nothing; the scheduler picks nobody before this goroutine is durably blocked
+	s.cur = nil
 	s.yielded <- struct{}{}
 	raceOn()
 	return t
@@ -665,6 +700,7 @@ func (s *Sim) TaskEnd(handle interface{}) {
 	p := s.poisoned
 	s.mu.Unlock()
 	if wasRunning && !p {
+		s.cur = nil
 		s.yielded <- struct{}{}
 	}
 	raceOn()
